@@ -5,8 +5,7 @@ mkdir -p /tmp/batch/regress
 run_one() {
   d=$1; name=$(basename $d)
   prop=$(python3 -c "import json;print(json.load(open('$d/meta.json'))['breaks_property'])")
-  tier=quick
-  grep -q "thorough: Harness" $d/meta.json && ! grep -q '"caught_by": "quick' $d/meta.json && tier=thorough
+  tier=$(python3 -c "import json;print(json.load(open('$d/meta.json')).get('tier','quick'))")
   ./seed_eval.sh $d/patch.diff $prop $tier > /tmp/batch/regress/$name.txt 2>&1
   echo "$name $prop $tier $(grep -c '^VIOLATION' /tmp/batch/regress/$name.txt) violations $(grep 'check exit' /tmp/batch/regress/$name.txt)"
 }
